@@ -419,3 +419,6 @@ func ReportGridFail(t *testing.T, id string, f *Fail, enc []byte) {
 
 // WriteStats flushes the statistics of a property (for tests that do not go through Search/Replay).
 func WriteStats(id string) { statsFor(id).write() }
+
+// FirstN truncates s to n bytes.
+func FirstN(s string, n int) string { return truncate(s, n) }
